@@ -8,6 +8,14 @@ VERIF = os.path.dirname(os.path.dirname(os.path.abspath(__file__)))
 
 # property -> (category, technique, text, note, design_ref)
 CHECKS = {
+    'C08': ('exploration', 'dense <bra|O|ket> reference with operators built by explicit kron and Jordan-Wigner strings; per-sample '
+            'Born-amplitude monitor for sample_measurements',
+            'For random entangled states in random canonical forms (and a second state for bra != ket with non-unit norms) every '
+            'measurement function (expectation_value variants, correlation_function incl. opstr/str_on_first/autoJW and the '
+            'mixed-JW error, term correlation functions in both directions, terms sums, overlap, environments, reduced density '
+            'matrices, segment entropies, mutual information, charge statistics) is compared with dense linear algebra; each '
+            'sampled outcome must come with exactly its Born amplitude / probability.',
+            'single-site operator matrices are taken from the Site objects (verified separately in C12)', 'DESIGN.md §C08'),
     'C07': ('exploration', 'harness contraction of the raw stored MPS tensors (with the recorded form exponents) compared with the '
             'source state; dense Schmidt spectra at every cut; window density matrices for infinite MPS',
             'MPS are built by every constructor from harness-generated dense states / tensors; the harness contracts the raw '
